@@ -681,7 +681,9 @@ impl Engine for LoopSim {
 
     fn gen_cfg(&mut self, rng: &mut StdRng) -> Value {
         let profile = std::env::var("VH_PROFILE").unwrap_or_else(|_| "steady".into());
-        let n = std::env::var("VH_LINKS").ok().and_then(|s| s.parse().ok()).unwrap_or_else(|| rng.random_range(1..=4));
+        // (an outage needs a link to lose and one to survive)
+        let lo = if profile == "outage" { 2 } else { 1 };
+        let n = std::env::var("VH_LINKS").ok().and_then(|s| s.parse().ok()).unwrap_or_else(|| rng.random_range(lo..=4));
         let steps = std::env::var("VH_STEPS").ok().and_then(|s| s.parse().ok()).unwrap_or(3000u64);
         let rtt: Vec<u64> = (0..n).map(|_| [3u64, 8, 20, 45, 90][rng.random_range(0..5)]).collect();
         let timeout = if profile == "outage" { [2000u64, 5000, 8000][rng.random_range(0..3)] } else { 5000 };
